@@ -203,8 +203,12 @@ PROPS["C11"] = dict(
     verus=[dict(name="driver", template="contracts/C11/driver.vrs", expect=["selection"]),
            dict(name="operators", template="contracts/C11/operators.vrs",
                 expect=["<LinearRank as Selection<P>>::select", "<RandomWithoutRepetition as Selection<P>>::select"])],
-    kani=[dict(files=["contracts/C11/c11.rs"])],
-    min_obligations={"quick": 30, "thorough": 33},
+    kani=[dict(files=["contracts/C11/c11.rs", "contracts/C11/c11_contracts.rs"],
+               annotations=[dict(file="src/components/selection/functional.rs", impl="-", fn="objective_bounds", attrs=[
+                   "kani::ensures(|r: &Option<(f64, f64)>| r.is_none() == population.is_empty())",
+                   "kani::ensures(|r: &Option<(f64, f64)>| match r { Some((max, min)) => population.iter().all(|i| i.objective().value() <= *max && i.objective().value() >= *min) && population.iter().any(|i| i.objective().value() == *max) && population.iter().any(|i| i.objective().value() == *min), None => true })",
+               ])])],
+    min_obligations={"quick": 32, "thorough": 36},
     uncovered=["ExponentialRank (float powi)", "RouletteWheel / SUS (float accumulation)", "tournament sampling", "DE selections",
                "FullyRandom (rejection-sampling loop over a symbolic RNG is unbounded)"],
 )
@@ -214,8 +218,9 @@ PROPS["C15"] = dict(
                  "arbitrary triggers/extractors and the abstract form of holding's contract (C02). Kani: Step::push / CompressedLog."),
     verus=[dict(name="logging", template="contracts/C15/logging.vrs",
                 expect=["ExtractionRule<P>::execute", "LogConfig<P>::execute", "<Logger as Component<P>>::execute"])],
-    kani=[dict(files=["contracts/C15/c15.rs"])],
-    min_obligations={"quick": 4, "thorough": 4},
+    kani=[dict(files=["contracts/C15/c15.rs"], inject=[dict(file="contracts/C15/c15_compressed.rs", into="src/logging/log.rs")],
+               map_shim=True, map_shim_files=["src/logging/log.rs"])],
+    min_obligations={"quick": 5, "thorough": 6},
     uncovered=["JSON/CBOR/RON serialisation and decoding", "every template serialises / distinct configurations serialise differently"],
 )
 
@@ -228,7 +233,7 @@ PROPS["C01"] = dict(
                  "All histories that stay within the bound agree with the model by induction over operations (not machine-checked)."),
     verus=[],
     kani=[dict(files=["contracts/C01/c01.rs"], map_shim=True, map_shim_files=REG_FILES, harness_timeout="900s", timeout_s=2700)],
-    min_obligations={"quick": 30, "thorough": 150},
+    min_obligations={"quick": 36, "thorough": 140},
     trusted=["std HashMap/HashSet replaced by an association list with the same interface under cfg(kani) (shim/verif_map.rs)",
              "std::cell::RefCell, better_any downcasts: exercised, not specified"],
     uncovered=["histories beyond the enumerated shapes (induction over operations is not machine-checked)", "take / panicking accessors"],
